@@ -614,8 +614,11 @@ def _eval_links(case):
             setattr(wmod, hname, hrecorder)
         out = 'returned'
         try:
+            import warnings
             fn = _resolve(spec['fn'])
-            fn(*args, **kw)
+            with warnings.catch_warnings(), np.errstate(all='ignore'):
+                warnings.simplefilter('ignore')
+                fn(*args, **kw)
         except _Captured:
             out = 'captured'
         except Exception as e:
@@ -724,7 +727,7 @@ def cases(rng, tier):
         mod = 'mahotas.features.' if target.split('.')[0] in ('_lbp', '_surf', '_texture', '_zernike') else 'mahotas.'
         out.append(dict(kind='nguards', call=dict(fn=mod + target, args=args, kw={}), muts=muts))
     # argument links: valid calls of the wrappers that have a catalogue entry, every extracted call site in turn
-    nl = dict(quick=400, thorough=6000, search=0)[tier]
+    nl = dict(quick=320, thorough=6000, search=0)[tier]
     sites, flows = link_sites()
     sites = [s_ for s_ in sites if s_[0] in LINK_WRAPPERS and LINK_WRAPPERS[s_[0]] in catalog.ENTRIES]
     helper_of = {(w_, n_, i_): h_ for w_, h_, n_, i_ in flows}
